@@ -358,3 +358,53 @@ def register(R):
     crd.props, crd.checks, crd.raises = ('C02', 'C15'), rd_checks, {'Exception': only_propagates}
     R.mark_inline(f'{L}:MultipartDownloader.__init__')
     R.builtin_models[f'{L}.ShutdownQueue'] = None
+
+    # ------------------------------------------------------------------ OSUtils.get_temp_filename (C06, C19, C20)
+    # The temporary name lies in the destination's directory, keeps the whole random suffix, fits the file-system limit
+    # and is NOT the destination name.  Strings are z3 strings here; os.path.dirname / basename / join are modelled for
+    # POSIX paths (A-OS); A-RANDOM: the random extension is not what the destination's name happens to end with.
+    OSU = f'{UT}:OSUtils'
+
+    def gtf_setup(eng, st, args, self_val):
+        d, n, ext = z3.String('gtf_dir'), z3.String('gtf_name'), z3.String('gtf_ext')
+        st.ghost['gtf'] = (d, n, ext)
+        fn = args['filename']
+        st.assume(z3.Not(z3.Contains(n, z3.StringVal('/'))))
+        st.assume(z3.Length(n) >= 1)
+        st.assume(fn == z3.If(d == z3.StringVal(''), n, z3.Concat(d, z3.StringVal('/'), n)))
+        st.assume(z3.Length(ext) == 8)
+        st.assume(z3.Not(z3.Contains(ext, z3.StringVal('/'))))
+        st.assume(z3.Not(z3.SuffixOf(z3.Concat(z3.StringVal('.'), ext), n)))        # A-RANDOM
+
+    def gtf_models(eng):
+        from pyvc.engine import ok as _ok
+        R.builtin_models['os.path.dirname'] = lambda e, st, a, k, line: [_ok(st.ghost['gtf'][0] if 'gtf' in st.ghost else Opaque('dirname', kind='str'), st)]
+        R.builtin_models['os.path.basename'] = lambda e, st, a, k, line: [_ok(st.ghost['gtf'][1] if 'gtf' in st.ghost else Opaque('basename', kind='str'), st)]
+        R.builtin_models['os.path.join'] = lambda e, st, a, k, line: [_ok(
+            z3.If(a[0] == z3.StringVal(''), a[1], z3.Concat(a[0], z3.StringVal('/'), a[1])) if 'gtf' in st.ghost else Opaque('joined', kind='str'), st)]
+    gtf_models(None)
+
+    def rfe_returns(c, st):
+        return st.ghost['gtf'][2] if 'gtf' in st.ghost else Opaque('random_ext', kind='str')
+    R.contracts[f'{UT}:random_file_extension'].returns = rfe_returns
+
+    def gtf_post(c):
+        if 'gtf' not in c.new.st.ghost:           # assumed at a call site: the name is opaque there
+            return {}
+        d, n, ext = c.new.st.ghost['gtf']
+        res = c.result
+        suffix = z3.Concat(z3.StringVal('.'), ext)
+        pre = z3.Concat(d, z3.StringVal('/'))
+        t = z3.If(d == z3.StringVal(''), res, z3.SubString(res, z3.Length(pre), z3.Length(res) - z3.Length(pre)))
+        return {
+            'temp_name_differs_from_the_destination': (res != c.a_filename, ['C06', 'C19', 'C20']),
+            'same_directory': (z3.Or(d == z3.StringVal(''), z3.PrefixOf(pre, res)), ['C06']),
+            'whole_random_suffix_kept': (z3.SuffixOf(suffix, t), ['C06']),
+            'within_the_name_limit': (z3.Length(t) <= 255, ['C06']),
+            'no_separator_in_the_temp_name': (z3.Not(z3.Contains(t, z3.StringVal('/'))), ['C06']),
+        }
+
+    cgt = R.contracts[f'{OSU}.get_temp_filename']
+    cgt.params = dict(filename=Str)
+    cgt.props, cgt.setup, cgt.ensures, cgt.raises = ('C06', 'C19', 'C20'), gtf_setup, gtf_post, {}
+    cgt.replay = dict(module=UT, cls='OSUtils', func='get_temp_filename', oracle='get_temp_filename')
